@@ -8,3 +8,7 @@ import AGV.Props.C24
 #print axioms AGV.Props.C24.c24_unresolvable_rejected
 #print axioms AGV.Props.C24.c24_limits_violated_by_byte_budget
 #print axioms AGV.Props.C24.c24_bind_violated_by_ignored_path
+#print axioms AGV.Props.C24.c24_frame
+#print axioms AGV.Props.C24.c24_refines_spec_wf
+#print axioms AGV.Props.C24.c24_refines_spec_false_duplicate_keys
+#print axioms AGV.Props.C24.c24_refines_spec_false_marker
